@@ -75,7 +75,7 @@ func damageRichPlan(t *rapid.T, op *Op) string {
 		_ = json.Unmarshal(b, &m)
 		return m
 	}
-	k := uni(t, 21, "plan.damage")
+	k := uni(t, 22, "plan.damage")
 	switch k {
 	case 0:
 		if n >= 2 {
@@ -184,6 +184,18 @@ func damageRichPlan(t *rapid.T, op *Op) string {
 		s := string(b) + " ] " + string(b)
 		op.Raw = &s
 		return "second value after a stray bracket"
+	case 20:
+		// an after entry that matches a title only after trimming or case folding: dangling
+		i := uni(t, n, "pad.i")
+		j := uni(t, n, "pad.j")
+		v := oneOf(t, []string{*d.Tasks[j].Title + " ", " " + *d.Tasks[j].Title, strings.ToUpper(*d.Tasks[j].Title) + "\u200b"}, "pad.variant")
+		for _, t2 := range d.Tasks {
+			if *t2.Title == v {
+				v += "~"
+			}
+		}
+		d.Tasks[i].After = append(d.Tasks[i].After, v)
+		return "after entry differing from a title only by padding"
 	case 19:
 		b, _ := json.Marshal(d)
 		s := string(b) + oneOf(t, []string{" 0", " null", " \"x\"", " []"}, "scalar")
@@ -199,7 +211,7 @@ func damageRichPlan(t *rapid.T, op *Op) string {
 
 func TestC11(t *testing.T) {
 	RunSeq(t, SeqCheck{
-		Prop: "C11",
+		Prop: "C11", FaultPct: 5,
 		Profile: Profile{Name: "plans", Weights: weightsWith(map[string]int{"plan": 0, "new_task": 14, "set": 16, "sequence": 8, "prune_yes": 4, "compact": 4, "claim": 4}),
 			BadRef: 3, Spoil: 2, Results: 2, MinSteps: 3, MaxSteps: 12},
 		GenOp: func(rt *rapid.T, w *World, pre *Snapshot, prof Profile) Op {
